@@ -455,7 +455,10 @@ fn shrink(model: &mut Model, case: &Case, key: &str) -> Case {
     cur
 }
 
-const PORTS: [u16; 8] = [0x00FE, 0xFEFE, 0x7FFE, 0x00FA, 0x1236, 0x40FE, 0xBF3E, 0xFF7E];
+/// even ports of every kind: the usual 0xFE with various high bytes, other low bytes with A1 set, and even
+/// addresses with A1 = 0 and A15 = 0, which on the 128K also match the paging latch's decoding (an OUT to an
+/// even port is a ULA write whatever else it matches)
+const PORTS: [u16; 12] = [0x00FE, 0xFEFE, 0x7FFE, 0x00FA, 0x1236, 0x40FE, 0xBF3E, 0xFF7E, 0x02FC, 0x0200, 0x7EF4, 0x3FFC];
 
 /// one frame worth of ops: port writes at sorted clocks, biased to the interesting places
 fn frame_ops(r: &mut Rng, m128: bool, ops: &mut Vec<Op>) {
